@@ -139,11 +139,15 @@ def make_lattice(m, rot=None):
     return Lattice(M)
 
 
-def make_traj(m, species, coords, time_step=2e-15, temperature=600.0, rot=None, mode='auto', **kw):
+def make_traj(m, species, coords, time_step=2e-15, temperature=600.0, rot=None, mode='auto', images=None, **kw):
     from gemdat.trajectory import Trajectory
     from pymatgen.core import Element
     species = [Element(s) if isinstance(s, str) else s for s in species]
     coords = np.array(coords, dtype=float)
+    # which periodic image of an atom a file happens to store is not part of the meaning of a trajectory: with `images` (a seed) every
+    # atom in every frame is moved by up to three whole cells per axis (exact on the dyadic grids the harnesses use)
+    if images is not None and coords.ndim == 3 and coords.size and 'coords_are_displacement' not in kw:
+        coords = coords + np.random.default_rng(int(images)).integers(-3, 4, size=coords.shape).astype(float)
     # memory layout is not part of the meaning of an array: hand the same values over in C order, Fortran order or as a
     # non-contiguous view, chosen deterministically from the content (so that a replay sees the same layout)
     if coords.ndim == 3 and coords.size:
@@ -163,6 +167,14 @@ def make_traj(m, species, coords, time_step=2e-15, temperature=600.0, rot=None, 
         if (zlib.crc32(np.ascontiguousarray(coords).tobytes()) // 4) % 3 == 0:
             t.to_displacements()
     return t
+
+
+def image_seed(case, every=4):
+    """a seed for make_traj(images=...) for one case in `every`, derived from the case content (so that a replay sees the same trajectory)"""
+    import json
+    import zlib
+    h = zlib.crc32(json.dumps(case, sort_keys=True, default=str).encode())
+    return h if h % every == 0 else None
 
 
 def make_sites(m, frac, labels=None, species='Li', rot=None):
